@@ -20,6 +20,10 @@ func main() {
 		os.Exit(props.C08ExploreMain(os.Args[2]))
 	case "C08-race":
 		os.Exit(props.C08RaceMain(os.Args[2]))
+	case "__prebuild":
+		os.Exit(props.Prebuild())
+	case "C09-child":
+		os.Exit(props.C09ChildMain(os.Args[2], os.Args[3]))
 	}
 	tier := os.Getenv("VERIF_TIER")
 	if tier == "" {
